@@ -225,13 +225,16 @@ theorem inv_recv (isSet) (hset : IsSetOk isSet) (w : World) (q : QState) (reqCoo
       rw [validate_badclient _ _ _ _ _ _ _ h1 h2 hp]
     · subst hr
       have hv : validFor (some rq) (some r) = true := by simp [validFor, h1, h2, hp]
-      have hck : (validateWith isSet w.ck q (some rq) (some r) rcode w.now).ck = learn w.ck rq r := by
+      have hck : (validateWith isSet w.ck q (some rq) (some r) rcode w.now).ck = learnG w.ck rq r := by
         by_cases hr : rcode = RCODE_BADCOOKIE
         · subst hr; rw [validate_server_badcookie _ _ _ _ _ _ h1 h2 hp]
         · rw [validate_server_ok _ _ _ _ _ _ _ h1 h2 hp hr]
       simp only [step, hv, ↓reduceIte, hck]
-      exact ⟨h.now_sec, h.now_usec, wf_learn _ _ _ h.wf h2, h.sent_len,
-             fun _ => by simp [learn_uts], by intro t ht; cases ht⟩
+      refine ⟨h.now_sec, h.now_usec, wf_learnG _ _ _ h.wf h2, h.sent_len, ?_, by intro t ht; cases ht⟩
+      intro hs
+      rcases learnG_cases w.ck rq r with hl | ⟨hl, _, hns⟩
+      · simp only [hl, learn_uts]; rfl
+      · simp only [hl] at hs; exact absurd hs hns
     · have hv := validFor_noserver rq resp hn
       have hl := lacks_noserver rq resp hn
       by_cases hr : rcode = RCODE_BADCOOKIE
@@ -319,7 +322,7 @@ theorem reach_run (isSet) (es : List Ev) : ∀ (w : World), Reach isSet w → Tr
 theorem validate_ck_cases (isSet) (c : CookieSt) (q : QState) (reqCookie resp : Option Bytes) (rcode : Nat) (now : TimeVal) :
     let o := validateWith isSet c q reqCookie resp rcode now
     o.ck = c ∨
-    (∃ rq r, reqCookie = some rq ∧ resp = some r ∧ validFor reqCookie resp = true ∧ o.ck = learn c rq r) ∨
+    (∃ rq r, reqCookie = some rq ∧ resp = some r ∧ validFor reqCookie resp = true ∧ o.ck = learnG c rq r) ∨
     (c.state = .supported ∧ o.ck = { c with unsupportedTs := now } ∧ o.verdict = .drop) ∨
     (c.state = .generated ∧ o.ck = { CookieSt.cleared with state := .unsupported, unsupportedTs := now } ∧
        o.verdict = .accept ∧ ∃ rq, reqCookie = some rq ∧ NoServer rq resp ∧ rcode ≠ RCODE_BADCOOKIE) := by
